@@ -584,8 +584,4 @@ package commands
 //@   modifies fresh
 //@   ensures result1 == nil && oid != fs.EmptyObjectSHA256 ==> result0 == objpath(oid)
 //@   ensures result1 == nil && oid == fs.EmptyObjectSHA256 ==> result0 == devnull
-//@ func github.com/git-lfs/git-lfs/v3/lfs.DecodePointer
-//@   assumed
-//@   props C12
-//@   modifies fresh, ghost rrest[reader]
-//@   ensures result1 == nil ==> result0 != nil
+//@   ensures !err_cleanptr(result1)
